@@ -13,14 +13,16 @@ Theorem C07_flags_clear_after_every_operation : forall mro fuel ops st,
 Proof. exact run_flags. Qed.
 Print Assumptions C07_flags_clear_after_every_operation.
 
-(* outcome classes of a read that has to compute *)
+(* outcome classes of a read that has to compute.  The computation runs with the mark "a read is on the stack" (Hook._read_depth > 0) set and the mark
+   is put back afterwards; fuel exhaustion (RecursionError) becomes AttributeError in the OUTERMOST read only *)
 Theorem C07_outcome_classes : forall gr st o h,
   (alookup key2_eqb (dict st) (o, h) = None \/ alookup key2_eqb (dict st) (o, h) = Some VNone) ->
   (alookup key2_eqb (cache st) (o, h) = None \/ alookup key2_eqb (cache st) (o, h) = Some VNone) ->
-  let '(st1, r) := gr st o (cls_of st o) h in
+  let '(st0, r) := gr (set_inget st true) o (cls_of st o) h in
+  let st1 := set_inget st0 (inget st) in
   read_with gr st o h =
     match r with
-    | Exn ERecursion => (st1, Exn EAttr)
+    | Exn ERecursion => (st1, Exn (if inget st then ERecursion else EAttr))
     | Exn e => (st1, Exn e)
     | Val VNone => (st1, Exn EAttr)
     | Val v => if nonfinite v then (st1, Exn EValue) else (set_cache st1 (aset key2_eqb (cache st1) (o, h) v), Val v)
@@ -28,15 +30,64 @@ Theorem C07_outcome_classes : forall gr st o h,
 Proof. exact read_computed. Qed.
 Print Assumptions C07_outcome_classes.
 
-Theorem C07_never_recursion_error : forall gr st o h, snd (read_with gr st o h) <> Exn ERecursion.
+(* a read issued from outside (no read on the stack) never ends in RecursionError ... *)
+Theorem C07_never_recursion_error : forall gr st o h, inget st = false -> snd (read_with gr st o h) <> Exn ERecursion.
 Proof. exact read_never_recursion_error. Qed.
 Print Assumptions C07_never_recursion_error.
 
+(* ... and every operation puts the mark back, so in every reachable state a read issued from outside is an outermost read *)
+Theorem C07_every_outside_read_is_outermost : forall mro fuel ops o h,
+  let st := fst (run mro sem_fixed fuel init ops) in
+  inget st = false /\ snd (read mro sem_fixed fuel st o h) <> Exn ERecursion.
+Proof.
+  intros mro fuel ops o h. cbn zeta.
+  assert (E : inget (fst (run mro sem_fixed fuel init ops)) = false) by (rewrite run_inget; reflexivity).
+  split; [exact E | apply read_never_recursion_error; exact E].
+Qed.
+Print Assumptions C07_every_outside_read_is_outermost.
+
+(* runaway recursion fails the WHOLE read: a read nested in another read's computation hands the RecursionError on, remembering nothing, and no
+   construct of an implementation (try/except AttributeError, has_value, sequencing, arithmetic) can turn it into a value half-way up the stack *)
+Theorem C07_nested_read_passes_recursion_error : forall gr st o h,
+  inget st = true ->
+  (alookup key2_eqb (dict st) (o, h) = None \/ alookup key2_eqb (dict st) (o, h) = Some VNone) ->
+  (alookup key2_eqb (cache st) (o, h) = None \/ alookup key2_eqb (cache st) (o, h) = Some VNone) ->
+  snd (gr (set_inget st true) o (cls_of st o) h) = Exn ERecursion ->
+  snd (read_with gr st o h) = Exn ERecursion /\
+  cache (fst (read_with gr st o h)) = cache (fst (gr (set_inget st true) o (cls_of st o) h)).
+Proof. exact nested_read_passes_recursion_error. Qed.
+Print Assumptions C07_nested_read_passes_recursion_error.
+
+Theorem C07_recursion_error_not_catchable : forall gr o cy st a b r h',
+  (snd (exec gr o a cy st) = Exn ERecursion -> snd (exec gr o (PTry a b) cy st) = Exn ERecursion) /\
+  (snd (exec gr o a cy st) = Exn ERecursion -> snd (exec gr o (PSeq a b) cy st) = Exn ERecursion) /\
+  (snd (exec gr o a cy st) = Exn ERecursion -> snd (exec gr o (PAdd a b) cy st) = Exn ERecursion) /\
+  (snd (read_with gr st (the_obj o r) h') = Exn ERecursion ->
+   snd (exec gr o (PIfHas HasValue r h' a b) cy st) = Exn ERecursion).
+Proof. exact recursion_error_not_catchable. Qed.
+Print Assumptions C07_recursion_error_not_catchable.
+
 Theorem C07_failed_read_remembers_nothing : forall gr st o h e,
   snd (read_with gr st o h) = Exn e ->
-  cache (fst (read_with gr st o h)) = cache (fst (gr st o (cls_of st o) h)) \/ fst (read_with gr st o h) = st.
+  cache (fst (read_with gr st o h)) = cache (fst (gr (set_inget st true) o (cls_of st o) h)) \/ fst (read_with gr st o h) = st.
 Proof. exact failed_read_remembers_nothing. Qed.
 Print Assumptions C07_failed_read_remembers_nothing.
+
+(* an instance by computation: hook a reads b behind a has_value guard, b reads a - a runaway.  The read of a fails with AttributeError for every
+   fuel (stack depth); with the pinned conversion in the innermost read the guard swallowed the failure and the read "succeeded" with a value that
+   depends on the fuel (repaired defect) *)
+Definition mro1 (c : cls) : list cls := match c with 0 => [0] | _ => [] end.
+Definition guarded_runaway : list op :=
+  [Register 0 {| i_owner := 0; i_hook := 0; i_tier := 1; i_wrapper := false;
+                 i_body := Plain (PIfHas HasValue OSelf 1 (PAdd (PRead OSelf 1) (PConst (VInt 1))) (PConst (VInt 0))) |};
+   Register 1 {| i_owner := 0; i_hook := 1; i_tier := 1; i_wrapper := false;
+                 i_body := Plain (PAdd (PRead OSelf 0) (PConst (VInt 1))) |};
+   NewObj 0 0; Read 0 0].
+Example C07_guarded_runaway_fails_for_every_depth :
+  forallb (fun fuel => match last (snd (run mro1 sem_fixed fuel init guarded_runaway)) ODone with OOut (Exn EAttr) => true | _ => false end)
+          [3; 4; 5; 8; 13; 21; 34; 55]%nat = true /\
+  cache (fst (run mro1 sem_fixed 34 init guarded_runaway)) = [].
+Proof. vm_compute. split; reflexivity. Qed.
 
 (* record of the repaired defect: with the pinned "finally: cycle = False" a flag is cleared while its call
    is still on the stack; here a failure inside a nested evaluation leaves different later behaviour *)
